@@ -108,6 +108,9 @@ fn crowd_probe(cfg: &Cfg, vecs: &[Vector]) {
         return;
     }
     let k = c / 61;
+    if k >= 24 {
+        return; // a bounded number of probes per process
+    }
     let v = &vecs[(k as usize * 7919) % vecs.len()];
     let n = [4200usize, 1100, 70_000][(k % 3) as usize];
     if n > 10_000 && k % 12 != 2 {
